@@ -1,6 +1,7 @@
 package main
 
 import (
+	"time"
 	"fmt"
 	"strings"
 
@@ -33,6 +34,48 @@ func runC04Case(c *Ctx, kind string, input []rune) {
 	}
 	if c.Evals%8 == 0 {
 		checkTokEntryPoints(c, kind, 0, input, ts)
+	}
+	if c.Evals%16 == 1 {
+		// "any tokenizer": also one that was used before and abandoned in the middle of another input, right
+		// after a presence query (a token is then prefetched and never fetched)
+		prev := []rune("ab <= 'x' 12 {{y}}")
+		var got []tk
+		st := safeCallT(3*time.Second, func() string {
+			t := newTokenizer(kind)
+			setOpts(t, 0)
+			t.SetReader(newScanner(string(prev)))
+			t.HasNextToken()
+			t.NextToken()
+			t.HasNextToken()
+			if c.Evals%32 == 1 {
+				got = conv(t.TokenizeBuffer(string(input)))
+			} else {
+				// values only, through the string-list entry point
+				for _, v := range t.TokenizeBufferToStrings(string(input)) {
+					got = append(got, tk{Typ: -1, Val: []rune(v)})
+				}
+			}
+			return ""
+		})
+		if st == "" {
+			msg := ""
+			if len(got) > 0 && got[0].Typ == -1 {
+				var cat []rune
+				for _, g := range got {
+					cat = append(cat, g.Val...)
+				}
+				if !sameRunes(cat, input) {
+					msg = fmt.Sprintf("TokenizeBufferToStrings values concatenate to %q, input is %q", string(cat), string(input))
+				}
+			} else {
+				msg = oracleLossless(input, got)
+			}
+			if msg != "" {
+				c.fail(Failure{Kind: "oracle", Op: fmt.Sprintf("hist %s 0 -1 %s %s", kind, runesStr(prev), runesStr(input)), Impl: showTks(got),
+					Note: "on a tokenizer abandoned in the middle of an earlier input: " + msg})
+				return
+			}
+		}
 	}
 	c.model(op, impl, "model")
 }
@@ -87,6 +130,10 @@ func propC04(c *Ctx) {
 
 func replayTok(c *Ctx, op string) {
 	if replayEntry(c, op) {
+		return
+	}
+	if strings.HasPrefix(op, "hist ") || strings.HasPrefix(op, "tokh ") {
+		replayC05(c, op)
 		return
 	}
 	f := strings.Fields(op)
